@@ -171,3 +171,154 @@ fn custom_selector_sees_statuses() {
     std::mem::forget(ctxs);
     std::mem::forget(s);
 }
+
+// ---------------------------------------------------------------------------
+// C18 (threshold part) — the periodic check task of the real
+// `HealthCheckWrapper::start()`, driven by the harness as the runtime: outer
+// task (interval loop) and one spawned check task per tick, virtual clock.
+// ---------------------------------------------------------------------------
+use crate::wrapper::HealthCheckWrapper;
+use crate::HealthChecker;
+use std::future::Future;
+use std::pin::Pin;
+use std::task::{Context, Poll};
+use std::time::Duration;
+use tokio::model;
+
+struct Tg {
+    magic: [u64; 2],
+    /// result of check k: 0 healthy, 1 degraded, 2 unhealthy, 3 unknown, 4 slower than the check timeout
+    results: [u8; 4],
+    checks: usize,
+}
+static mut TG: Tg = Tg { magic: [0x4331385f54485245, 0x53484f4c44535f21], results: [0; 4], checks: 0 };
+fn tg() -> &'static mut Tg {
+    unsafe { &mut *core::ptr::addr_of_mut!(TG) }
+}
+struct Chk;
+struct CheckFut(u8);
+impl Future for CheckFut {
+    type Output = HealthStatus;
+    fn poll(self: Pin<&mut Self>, _cx: &mut Context<'_>) -> Poll<HealthStatus> {
+        match self.0 {
+            0 => Poll::Ready(HealthStatus::Healthy),
+            1 => Poll::Ready(HealthStatus::Degraded),
+            2 => Poll::Ready(HealthStatus::Unhealthy),
+            3 => Poll::Ready(HealthStatus::Unknown),
+            _ => Poll::Pending,
+        }
+    }
+}
+impl HealthChecker<u32> for Chk {
+    fn check(&self, _r: &u32) -> impl Future<Output = HealthStatus> + Send {
+        let t = tg();
+        let k = t.checks.min(3);
+        t.checks += 1;
+        CheckFut(t.results[k])
+    }
+}
+fn system_time_stub() -> std::time::SystemTime {
+    std::time::UNIX_EPOCH + model::now()
+}
+
+fn poll_ready<F: Future>(f: F) -> F::Output {
+    let mut f = Box::pin(f);
+    let mut cx = Context::from_waker(std::task::Waker::noop());
+    match f.as_mut().poll(&mut cx) {
+        Poll::Ready(v) => v,
+        Poll::Pending => {
+            kani::assume(false);
+            unreachable!()
+        }
+    }
+}
+
+fn thresholds(ticks: usize) {
+    let ft: u32 = kani::any();
+    let st: u32 = kani::any();
+    kani::assume(ft >= 1 && ft <= 3 && st >= 1 && st <= 3);
+    let mut i = 0;
+    while i < 4 {
+        let r: u8 = kani::any();
+        kani::assume(r <= 4);
+        tg().results[i] = r;
+        i += 1;
+    }
+    let w = HealthCheckWrapper::builder()
+        .with_context(7u32, String::new())
+        .with_checker(Chk)
+        .with_interval(Duration::from_secs(1))
+        .with_initial_delay(Duration::ZERO)
+        .with_timeout(Duration::from_millis(100))
+        .with_failure_threshold(ft)
+        .with_success_threshold(st)
+        .build();
+    poll_ready(w.start());
+    // reference machine, from the statement
+    let mut status = HealthStatus::Unknown;
+    let (mut succ, mut fail) = (0u32, 0u32);
+    let mut tick = 0;
+    while tick < ticks {
+        model::poll_task(0); // interval fires, the check task is spawned
+        assert!(model::task_count() == tick + 2, "[C18.one_check_per_tick] one check per resource per interval tick");
+        let id = tick + 1;
+        let fin = model::poll_task(id);
+        let r = tg().results[tick.min(3)];
+        if r == 4 {
+            assert!(!fin, "[C18.slow_check_waits_for_timeout] a slow check is not decided before the check timeout");
+            model::advance(Duration::from_millis(100));
+            let fin2 = model::poll_task(id);
+            assert!(fin2, "[C18.slow_check_times_out] a check slower than the timeout is decided at the timeout");
+        } else {
+            assert!(fin, "[C18.check_completes] a completed check is processed at once");
+        }
+        match r {
+            0 => {
+                succ += 1;
+                fail = 0;
+                if succ >= st {
+                    status = HealthStatus::Healthy;
+                }
+            }
+            1 => {
+                succ += 1;
+                fail = 0;
+                status = HealthStatus::Degraded;
+            }
+            3 => {}
+            _ => {
+                fail += 1;
+                succ = 0;
+                if fail >= ft {
+                    status = HealthStatus::Unhealthy;
+                }
+            }
+        }
+        let published = poll_ready(w.get_status(""));
+        assert!(published == Some(status), "[C18.status_flips_at_thresholds] the published status changes exactly at the configured thresholds (degraded at once, unknown never)");
+        let h = poll_ready(w.get_healthy());
+        let u = poll_ready(w.get_usable());
+        assert!(h.is_some() == (status == HealthStatus::Healthy), "[C18.get_healthy_only_healthy] get_healthy returns a resource only while it is published healthy");
+        assert!(u.is_some() == status.is_usable(), "[C18.get_usable_only_usable] get_usable returns a resource only while it is published healthy or degraded");
+        model::poll_task(0); // the outer task collects the check and waits for the next tick
+        model::advance(Duration::from_secs(1));
+        tick += 1;
+    }
+    kani::cover!(status == HealthStatus::Unhealthy && ft == 2, "unhealthy after two consecutive failures");
+    kani::cover!(status == HealthStatus::Healthy && st == 2, "healthy after two consecutive successes");
+    std::mem::forget(w);
+}
+
+#[kani::proof]
+#[kani::unwind(8)]
+#[kani::stub(std::hash::RandomState::new, random_state_stub)]
+#[kani::stub(std::time::SystemTime::now, system_time_stub)]
+#[kani::stub(std::time::Instant::now, tokio::model::std_instant_now)]
+fn thresholds_three_ticks() { thresholds(3) }
+
+#[kani::proof]
+#[kani::unwind(8)]
+#[kani::stub(std::hash::RandomState::new, random_state_stub)]
+#[kani::stub(std::time::SystemTime::now, system_time_stub)]
+#[kani::stub(std::time::Instant::now, tokio::model::std_instant_now)]
+fn thresholds_two_ticks() { thresholds(2) }
